@@ -114,10 +114,10 @@ type lsFn struct {
 	fresh    map[string]bool
 }
 
-func coqStr(s string) string { return "\"" + strings.ReplaceAll(s, "\"", "\"\"") + "\"" }
+func c20CoqStr(s string) string { return "\"" + strings.ReplaceAll(s, "\"", "\"\"") + "\"" }
 
 func (f *lsFn) emit(s string) { *f.ev = append(*f.ev, s) }
-func (f *lsFn) bad(why string) { f.emit("GBad " + coqStr(why)) }
+func (f *lsFn) bad(why string) { f.emit("GBad " + c20CoqStr(why)) }
 
 func recvTypeName(e ast.Expr) string {
 	switch t := e.(type) {
@@ -410,7 +410,7 @@ func (f *lsFn) access(e ast.Expr, write bool) {
 		}
 		if _, isVar := f.p.pkgVars[c]; isVar && write {
 			f.p.globalsW[c] = true
-			f.emit("GWr " + coqStr("global:"+c))
+			f.emit("GWr " + c20CoqStr("global:"+c))
 		}
 		return
 	}
@@ -418,9 +418,9 @@ func (f *lsFn) access(e ast.Expr, write bool) {
 		f.p.guards[c] = "barrier"
 	}
 	if write {
-		f.emit("GWr " + coqStr(c))
+		f.emit("GWr " + c20CoqStr(c))
 	} else {
-		f.emit("GRd " + coqStr(c))
+		f.emit("GRd " + c20CoqStr(c))
 	}
 }
 
@@ -659,14 +659,14 @@ func (f *lsFn) call(c *ast.CallExpr) {
 			if m := f.mutexOf(sel.X); m != "" && len(c.Args) == 0 {
 				switch sel.Sel.Name {
 				case "Lock":
-					f.emit("GAcq " + coqStr(m))
+					f.emit("GAcq " + c20CoqStr(m))
 					f.explicit[m] = f.depth
 				case "Unlock":
 					if d, ok := f.explicit[m]; ok && d != f.depth {
 						f.bad("Unlock of " + m + " in a different block than its Lock in " + f.key)
 					}
 					delete(f.explicit, m)
-					f.emit("GRel " + coqStr(m))
+					f.emit("GRel " + c20CoqStr(m))
 				default:
 					f.bad("RWMutex use is not modelled: " + m + " in " + f.key)
 				}
@@ -676,7 +676,7 @@ func (f *lsFn) call(c *ast.CallExpr) {
 			if o := f.onceOf(sel.X); o != "" && len(c.Args) == 1 {
 				switch a := c.Args[0].(type) {
 				case *ast.FuncLit:
-					f.emit("GOnce " + coqStr(o) + " " + coqStr(f.p.spec.pkg+":"+f.sub("once", a, false)))
+					f.emit("GOnce " + c20CoqStr(o) + " " + c20CoqStr(f.p.spec.pkg+":"+f.sub("once", a, false)))
 				default:
 					k := ""
 					if s2, ok := a.(*ast.SelectorExpr); ok {
@@ -692,7 +692,7 @@ func (f *lsFn) call(c *ast.CallExpr) {
 						f.bad("Once.Do with an argument that is not a closure or a method of this package in " + f.key)
 					} else {
 						f.p.calls[k]++
-						f.emit("GOnce " + coqStr(o) + " " + coqStr(f.p.spec.pkg+":"+k))
+						f.emit("GOnce " + c20CoqStr(o) + " " + c20CoqStr(f.p.spec.pkg+":"+k))
 					}
 				}
 				return
@@ -738,10 +738,10 @@ func (f *lsFn) call(c *ast.CallExpr) {
 				f.checkFresh(c)
 			}
 			if v, ok := f.p.spec.callWrites[fn.Name]; ok {
-				f.emit("GWr " + coqStr(v))
+				f.emit("GWr " + c20CoqStr(v))
 			}
 			f.p.calls[fn.Name]++
-			f.emit("GCall " + coqStr(f.p.spec.pkg+":"+fn.Name))
+			f.emit("GCall " + c20CoqStr(f.p.spec.pkg+":"+fn.Name))
 		}
 	case *ast.SelectorExpr:
 		if x, ok := fn.X.(*ast.Ident); ok && f.imports[x.Name] {
@@ -776,7 +776,7 @@ func (f *lsFn) call(c *ast.CallExpr) {
 		}
 		if mok {
 			f.p.calls[mkey]++
-			f.emit("GCall " + coqStr(f.p.spec.pkg+":"+mkey))
+			f.emit("GCall " + c20CoqStr(f.p.spec.pkg+":"+mkey))
 			return
 		}
 		if tn != "" && !f.p.ifaces[tn] {
@@ -789,7 +789,7 @@ func (f *lsFn) call(c *ast.CallExpr) {
 			for _, k := range ks {
 				f.p.calls[k]++
 			}
-			f.emit("GCall " + coqStr(f.p.spec.pkg+":*."+fn.Sel.Name))
+			f.emit("GCall " + c20CoqStr(f.p.spec.pkg+":*."+fn.Sel.Name))
 		}
 	case *ast.FuncLit:
 		f.closure(fn, false)
@@ -848,7 +848,7 @@ func (f *lsFn) assign(lhs []ast.Expr, rhs []ast.Expr, define bool) {
 			f.capturedWrite(id.Name)
 			c := "local:" + f.rootKey() + "." + id.Name
 			f.p.guards[c] = "barrier"
-			f.emit("GWr " + coqStr(c))
+			f.emit("GWr " + c20CoqStr(c))
 		}
 		f.access(b, true)
 		f.subexprs(l)
@@ -937,10 +937,10 @@ func (f *lsFn) stmt(s ast.Stmt) {
 			for _, n := range lsCaptured[f.rootKey()][k] {
 				f.captured[n] = true
 			}
-			f.emit("GSpawn " + coqStr(f.p.spec.pkg+":"+k))
+			f.emit("GSpawn " + c20CoqStr(f.p.spec.pkg+":"+k))
 		} else if id, ok := t.Call.Fun.(*ast.Ident); ok && f.p.funcs[id.Name] != nil {
 			f.p.asValue[id.Name] = true // the started function is a thread of its own: checked as a root
-			f.emit("GSpawn " + coqStr(f.p.spec.pkg+":"+id.Name))
+			f.emit("GSpawn " + c20CoqStr(f.p.spec.pkg+":"+id.Name))
 		} else {
 			f.bad("go statement with a function that is neither a literal nor a function of this package in " + f.key)
 		}
@@ -1036,7 +1036,7 @@ func (f *lsFn) loop(lv []string, body func()) {
 
 func (f *lsFn) finish() {
 	for i := len(f.deferred) - 1; i >= 0; i-- {
-		f.emit("GRel " + coqStr(f.deferred[i]))
+		f.emit("GRel " + c20CoqStr(f.deferred[i]))
 	}
 }
 
@@ -1088,7 +1088,7 @@ func (p *lsPkg) scan() {
 		for k, names := range m {
 			for _, n := range names {
 				if other, ok := seen[n]; ok && other != k {
-					p.events[root] = append(p.events[root], "GBad "+coqStr("two goroutines of "+root+" write the local "+n))
+					p.events[root] = append(p.events[root], "GBad "+c20CoqStr("two goroutines of "+root+" write the local "+n))
 				}
 				seen[n] = k
 			}
@@ -1099,7 +1099,7 @@ func (p *lsPkg) scan() {
 		var ev []string
 		sort.Strings(ks)
 		for _, k := range ks {
-			ev = append(ev, "GCall "+coqStr(p.spec.pkg+":"+k))
+			ev = append(ev, "GCall "+c20CoqStr(p.spec.pkg+":"+k))
 		}
 		p.events["*."+name] = ev
 		p.order = append(p.order, "*."+name)
@@ -1272,9 +1272,9 @@ func lockscanMain(args []string) {
 				}
 				ev = append(ev, e)
 			}
-			funcs = append(funcs, fmt.Sprintf("  (%s, (* %s *) [%s])", coqStr(spec.pkg+":"+k), p.positions[k], strings.Join(ev, "; ")))
+			funcs = append(funcs, fmt.Sprintf("  (%s, (* %s *) [%s])", c20CoqStr(spec.pkg+":"+k), p.positions[k], strings.Join(ev, "; ")))
 			if strings.Contains(k, "$go") {
-				roots = append(roots, coqStr(spec.pkg+":"+k)) // a goroutine body is a thread
+				roots = append(roots, c20CoqStr(spec.pkg+":"+k)) // a goroutine body is a thread
 				continue
 			}
 			if strings.Contains(k, "$") || strings.HasPrefix(k, "*.") || strings.HasSuffix(k, "#exempt") {
@@ -1289,10 +1289,10 @@ func lockscanMain(args []string) {
 				}
 			}
 			if isWeb {
-				webroots = append(webroots, coqStr(spec.pkg+":"+k))
+				webroots = append(webroots, c20CoqStr(spec.pkg+":"+k))
 			}
 			if !helper || isWeb {
-				roots = append(roots, coqStr(spec.pkg+":"+k))
+				roots = append(roots, c20CoqStr(spec.pkg+":"+k))
 			}
 		}
 		var ek []string
@@ -1302,7 +1302,7 @@ func lockscanMain(args []string) {
 		sort.Strings(ek)
 		for _, k := range ek {
 			if _, ok := p.funcs[k]; ok {
-				exempt = append(exempt, fmt.Sprintf("  (%s, %s)", coqStr(spec.pkg+":"+k), coqStr(spec.exempt[k])))
+				exempt = append(exempt, fmt.Sprintf("  (%s, %s)", c20CoqStr(spec.pkg+":"+k), c20CoqStr(spec.exempt[k])))
 			}
 		}
 		var gk []string
@@ -1314,11 +1314,11 @@ func lockscanMain(args []string) {
 			m := p.guards[k]
 			switch {
 			case m == "barrier":
-				guards = append(guards, fmt.Sprintf("  (%s, GBarrier)", coqStr(k)))
+				guards = append(guards, fmt.Sprintf("  (%s, GBarrier)", c20CoqStr(k)))
 			case strings.HasPrefix(m, "once:"):
-				guards = append(guards, fmt.Sprintf("  (%s, GG (GOnceG %s))", coqStr(k), coqStr(m)))
+				guards = append(guards, fmt.Sprintf("  (%s, GG (GOnceG %s))", c20CoqStr(k), c20CoqStr(m)))
 			default:
-				guards = append(guards, fmt.Sprintf("  (%s, GG (GMu %s))", coqStr(k), coqStr(m)))
+				guards = append(guards, fmt.Sprintf("  (%s, GG (GMu %s))", c20CoqStr(k), c20CoqStr(m)))
 			}
 		}
 		var gw []string
@@ -1327,15 +1327,15 @@ func lockscanMain(args []string) {
 		}
 		sort.Strings(gw)
 		for _, k := range gw {
-			guards = append(guards, fmt.Sprintf("  (%s, GGlobal)", coqStr("global:"+k)))
+			guards = append(guards, fmt.Sprintf("  (%s, GGlobal)", c20CoqStr("global:"+k)))
 		}
 		for _, e := range spec.exclFuncs {
-			excl = append(excl, coqStr(spec.pkg+":"+e))
+			excl = append(excl, c20CoqStr(spec.pkg+":"+e))
 		}
 		for k, ev := range p.events {
 			for _, e := range ev {
 				if strings.HasPrefix(e, "GSpawn ") && !strings.Contains(k, "$") {
-					barrierFns = append(barrierFns, coqStr(spec.pkg+":"+k))
+					barrierFns = append(barrierFns, c20CoqStr(spec.pkg+":"+k))
 					break
 				}
 			}
